@@ -30,8 +30,12 @@ func (a *SparseFloat32Matrix) Equals(b ConstMatrix, epsilon float64) bool {
   }
   for it := a.JOINT_ITERATOR(b); it.Ok(); it.Next() {
     s1, s2 := it.GET()
+    // an entry that is not stored is zero
     if s1.ptr == nil {
-      return false
+      if !s2.Equals(ConstFloat64(0.0), epsilon) {
+        return false
+      }
+      continue
     }
     if !s1.Equals(s2, epsilon) {
       return false
